@@ -712,3 +712,84 @@ Lemma units_absolute_context_free sq sq' n u nd aid aid' un un' dpi vb vb' :
   = convert_length sq' {| len_number := n; len_unit := u |} nd aid' un'
      {| st_opt := dpi; st_view_box := vb' |}.
 Proof. intro H. destruct u; try reflexivity. congruence. Qed.
+
+(* ------------------------------------------------------------------ products of finite transforms *)
+Lemma Qabs_m_bounds x : - Qabs_m x <= x /\ x <= Qabs_m x /\ 0 <= Qabs_m x.
+Proof.
+  unfold Qabs_m. destruct (Qleb 0 x) eqn:E.
+  - apply Qleb_true in E. repeat split; lra.
+  - apply Qleb_false in E. repeat split; lra.
+Qed.
+Lemma Qmax_m_l a b : a <= Qmax_m a b.
+Proof. unfold Qmax_m. destruct (Qleb a b) eqn:E; [apply Qleb_true in E; lra|lra]. Qed.
+Lemma Qmax_m_r a b : b <= Qmax_m a b.
+Proof. unfold Qmax_m. destruct (Qleb a b) eqn:E; [lra|apply Qleb_false in E; lra]. Qed.
+
+Lemma ts_mag_bounds t :
+  let M := ts_mag t in
+  0 <= M /\ (- M <= t_sx t <= M) /\ (- M <= t_ky t <= M) /\ (- M <= t_kx t <= M)
+  /\ (- M <= t_sy t <= M) /\ (- M <= t_tx t <= M) /\ (- M <= t_ty t <= M).
+Proof.
+  cbv zeta. unfold ts_mag.
+  pose proof (Qabs_m_bounds (t_sx t)) as (A1 & A2 & A3). pose proof (Qabs_m_bounds (t_ky t)) as (B1 & B2 & B3).
+  pose proof (Qabs_m_bounds (t_kx t)) as (C1 & C2 & C3). pose proof (Qabs_m_bounds (t_sy t)) as (D1 & D2 & D3).
+  pose proof (Qabs_m_bounds (t_tx t)) as (E1 & E2 & E3). pose proof (Qabs_m_bounds (t_ty t)) as (F1 & F2 & F3).
+  set (m5 := Qmax_m (Qabs_m (t_tx t)) (Qabs_m (t_ty t))).
+  set (m4 := Qmax_m (Qabs_m (t_sy t)) m5). set (m3 := Qmax_m (Qabs_m (t_kx t)) m4).
+  set (m2 := Qmax_m (Qabs_m (t_ky t)) m3). set (m1 := Qmax_m (Qabs_m (t_sx t)) m2).
+  pose proof (Qmax_m_l (Qabs_m (t_tx t)) (Qabs_m (t_ty t))). pose proof (Qmax_m_r (Qabs_m (t_tx t)) (Qabs_m (t_ty t))).
+  pose proof (Qmax_m_l (Qabs_m (t_sy t)) m5). pose proof (Qmax_m_r (Qabs_m (t_sy t)) m5).
+  pose proof (Qmax_m_l (Qabs_m (t_kx t)) m4). pose proof (Qmax_m_r (Qabs_m (t_kx t)) m4).
+  pose proof (Qmax_m_l (Qabs_m (t_ky t)) m3). pose proof (Qmax_m_r (Qabs_m (t_ky t)) m3).
+  pose proof (Qmax_m_l (Qabs_m (t_sx t)) m2). pose proof (Qmax_m_r (Qabs_m (t_sx t)) m2).
+  fold m5 in H, H0. fold m4 in H1, H2. fold m3 in H3, H4. fold m2 in H5, H6. fold m1 in H7, H8.
+  repeat split; lra.
+Qed.
+
+Lemma mul_bound x y A B : - A <= x <= A -> - B <= y <= B -> - (A * B) <= x * y /\ x * y <= A * B.
+Proof. intros [H1 H2] [H3 H4]. split; nra. Qed.
+
+Lemma norm_fin q : - F32_MAX <= q <= F32_MAX -> xq_norm q = Fin q.
+Proof. intros [H1 H2]. apply xq_norm_small; assumption. Qed.
+
+Lemma concat_finite_guarded a b :
+  KnownClass_product_overflow a b = false -> all_finite (xts_concat a b) = true.
+Proof.
+  unfold KnownClass_product_overflow. intro H. apply negb_false_iff in H. apply Qleb_true in H.
+  pose proof (ts_mag_bounds a) as (A0 & Asx & Aky & Akx & Asy & Atx & Aty).
+  pose proof (ts_mag_bounds b) as (B0 & Bsx & Bky & Bkx & Bsy & Btx & Bty).
+  set (A := ts_mag a) in *. set (B := ts_mag b) in *.
+  assert (AB0 : 0 <= A * B) by nra.
+  unfold xts_concat.
+  destruct (ts_is_identity a); [reflexivity|].
+  destruct (ts_is_identity b); [reflexivity|].
+  destruct (negb (ts_has_skew a) && negb (ts_has_skew b)).
+  - pose proof (mul_bound _ _ A B Asx Bsx). pose proof (mul_bound _ _ A B Asy Bsy).
+    pose proof (mul_bound _ _ A B Asx Btx). pose proof (mul_bound _ _ A B Asy Bty).
+    rewrite (norm_fin (t_sx a * t_sx b)) by lra. rewrite (norm_fin (t_sy a * t_sy b)) by lra.
+    rewrite (norm_fin (t_sx a * t_tx b)) by lra. rewrite (norm_fin (t_sy a * t_ty b)) by lra.
+    unfold xq_add. rewrite (norm_fin (t_sx a * t_tx b + t_tx a)) by lra.
+    rewrite (norm_fin (t_sy a * t_ty b + t_ty a)) by lra. reflexivity.
+  - unfold mul_add_mul.
+    pose proof (mul_bound _ _ A B Asx Bsx). pose proof (mul_bound _ _ A B Akx Bky).
+    pose proof (mul_bound _ _ A B Aky Bsx). pose proof (mul_bound _ _ A B Asy Bky).
+    pose proof (mul_bound _ _ A B Asx Bkx). pose proof (mul_bound _ _ A B Akx Bsy).
+    pose proof (mul_bound _ _ A B Aky Bkx). pose proof (mul_bound _ _ A B Asy Bsy).
+    pose proof (mul_bound _ _ A B Asx Btx). pose proof (mul_bound _ _ A B Akx Bty).
+    pose proof (mul_bound _ _ A B Aky Btx). pose proof (mul_bound _ _ A B Asy Bty).
+    rewrite (norm_fin (t_sx a * t_sx b + t_kx a * t_ky b)) by lra.
+    rewrite (norm_fin (t_ky a * t_sx b + t_sy a * t_ky b)) by lra.
+    rewrite (norm_fin (t_sx a * t_kx b + t_kx a * t_sy b)) by lra.
+    rewrite (norm_fin (t_ky a * t_kx b + t_sy a * t_sy b)) by lra.
+    rewrite (norm_fin (t_sx a * t_tx b + t_kx a * t_ty b)) by lra.
+    rewrite (norm_fin (t_ky a * t_tx b + t_sy a * t_ty b)) by lra.
+    unfold xq_add.
+    rewrite (norm_fin (t_sx a * t_tx b + t_kx a * t_ty b + t_tx a)) by lra.
+    rewrite (norm_fin (t_ky a * t_tx b + t_sy a * t_ty b + t_ty a)) by lra. reflexivity.
+Qed.
+
+(* witness: scale(1e30) under scale(1e30) *)
+Definition big_scale : ts := from_row (1000000000000000000000000000000 # 1) 0 0 (1000000000000000000000000000000 # 1) 0 0.
+Lemma concat_finite_refuted :
+  exists a b, KnownClass_product_overflow a b = true /\ all_finite (xts_concat a b) = false.
+Proof. exists big_scale, big_scale. vm_compute. split; reflexivity. Qed.
